@@ -133,7 +133,7 @@ def expected(carrier: str, value: str, facets: str) -> Optional[bool]:
     return None
 
 
-def search(repo: str, carrier_filter: Optional[str] = None, known=()) -> dict:
+def _search(repo: str, carrier_filter: Optional[str] = None, known=()) -> dict:
     """run the grid on the real code; return {'cases': n, 'mismatches': [...]}"""
     rc, outp = run_test_module(module_src(), 'verif_replay_r::grid', repo)
     cases = 0
@@ -161,3 +161,14 @@ def search(repo: str, carrier_filter: Optional[str] = None, known=()) -> dict:
 def carrier_of(obligation: str) -> Optional[str]:
     m = re.match(r'restrictions::([^:]+)::check_restrictions', obligation)
     return m.group(1) if m else None
+
+
+_MEMO = {}
+
+
+def search(repo, *a, **kw):
+    """one run of the harness per check process and tree (the result is shared by all obligations it decides)"""
+    key = (repo, a, tuple(sorted(kw.items())))
+    if key not in _MEMO:
+        _MEMO[key] = _search(repo, *a, **kw)
+    return _MEMO[key]
